@@ -77,10 +77,24 @@ func runK2srv(r *rng, n int) {
 		if r.chance(1, 2) {
 			hdr = append(hdr, r.bytesN(r.intn(5))...)
 		}
+		// ... or the connection is cut inside a frame that is fine so far: a whole header and a part of
+		// the body (any byte of any frame), then the peer goes away – Handle returns all the same
+		cut := r.chance(1, 3)
+		if cut {
+			full := [][]byte{
+				rawFrame(24, tag+1, cat(le32(7777), le64(0x7ff))),
+				rawFrame(118, tag+1, cat(le32(7779), le64(0), le32(64), r.bytesN(64))),
+				rawFrame(110, tag+1, cat(le32(7780), le32(7781), le16(2), str9([]byte("ab")), str9([]byte("cd")))),
+			}[r.intn(3)]
+			hdr = full[:1+r.intn(len(full)-1)]
+		}
 		ended, extra := 0, 0
 		if lost == 0 {
 			stream = append(stream, hdr...)
 			peer.write(hdr)
+			if cut {
+				peer.c.Close()
+			}
 			if peer.waitDone(8 * time.Second) {
 				ended = 1
 			}
